@@ -502,6 +502,35 @@ func genStress(rng *rand.Rand, idx int) spec {
 	return sp
 }
 
+// genCancelStress generates timer-short histories aimed at one window: TaskExecutor.Cancel(id) racing with the start of
+// the task (the task becomes due a few hundred microseconds after it was scheduled, Cancel arrives around that moment)
+// while other clients keep the queue's heap lock busy with ExecuteAt / element Cancel of other identifiers.
+func genCancelStress(rng *rand.Rand, idx int) spec {
+	sp := spec{Index: idx, Kind: kTask, Workers: 2 + rng.Intn(3)}
+	nClients := 3 + rng.Intn(2)
+	sp.Clients = make([][]opSpec, nClients)
+	for k := 0; k < 5+rng.Intn(4); k++ {
+		sp.Clients[0] = append(sp.Clients[0],
+			opSpec{T: "add", Item: sp.NItems, ID: 1, OffUs: int64(50 + rng.Intn(400))},
+			opSpec{T: "pause", PauseUs: rng.Intn(450)},
+			opSpec{T: "cancelid", ID: 1})
+		sp.NItems++
+	}
+	var others []int
+	for ci := 1; ci < nClients; ci++ {
+		for j := 0; j < 10+rng.Intn(8); j++ {
+			if len(others) > 0 && rng.Intn(4) == 0 {
+				sp.Clients[ci] = append(sp.Clients[ci], opSpec{T: "cancel", Item: others[rng.Intn(len(others))]})
+				continue
+			}
+			sp.Clients[ci] = append(sp.Clients[ci], opSpec{T: "add", Item: sp.NItems, ID: 2 + rng.Intn(6), OffUs: int64(rng.Intn(600)) - 100})
+			others = append(others, sp.NItems)
+			sp.NItems++
+		}
+	}
+	return sp
+}
+
 func (r *run) client(ci int, ops []opSpec) {
 	defer r.clientsWG.Done()
 	for j, op := range ops {
